@@ -94,7 +94,42 @@ def _override_specs(rng, ir, uni, n):
         if it["bad"] is not None and rng.random() < 0.4:
             val = it["bad"]
         out.append("/".join(it["path"] + [it["key"]]) + "=" + val)
+    if rng.random() < 0.35:
+        out.extend(_wild_default_specs(rng, ir, uni))
     return out
+
+
+def _wild_default_specs(rng, ir, uni):
+    """Overrides that address a key for which a wildcard ('+') key of the
+    container declares a keyed DEFAULT, in a container where the text sets
+    no key of that map (top level, or the first section of its path)."""
+    entries, sections, _before = layout.walk(uni)
+    wild_used = set()
+    for e in entries:
+        if e["line"]["role"] == "key" and e["line"].get("wild"):
+            wild_used.add(e["sect"])
+    cands = []
+    seen_paths = set()
+    for sid in [-1] + list(range(len(sections))):
+        ctx = "$top" if sid < 0 else sections[sid]["type"]
+        path = []
+        x = sid
+        while x >= 0:
+            path.append(sections[x]["name"] or sections[x]["type"])
+            x = sections[x]["parent"]
+        path.reverse()
+        if tuple(path) in seen_paths or sid in wild_used:
+            continue
+        seen_paths.add(tuple(path))
+        for it in G.all_items(ir, ctx):
+            if it["name"] == "+" and it["kind"] in ("key", "multikey") \
+                    and it.get("default"):
+                for k, _v in it["default"]:
+                    good = G.DATATYPES[it["datatype"]][0]
+                    cands.append("/".join(path + [k]) + "="
+                                 + rng.choice(good))
+    rng.shuffle(cands)
+    return [c for c in cands[:2] if "$" not in c]
 
 
 LOGGER_URL = "file:///sim/schema/logger-app.xml"
